@@ -51,19 +51,36 @@ Lemma returns_seq : forall (P : state -> Prop) v a b st,
   returns v (exec ext01 (SSeq a b) st).
 Proof. intros P v a b st [st1 [He P1]] Hb. cbn [exec]. rewrite He. cbn [bind]. now apply Hb. Qed.
 
+(* a loop statement with the property of TieLoop.loop_tie *)
+Definition loop_ok (lp : stmt) : Prop :=
+  forall s ci cd cs R N H rf hf hl vrl vmult vnorm vwarn st lf,
+    body_pre s ci cd cs R N H rf hf hl vrl vmult vnorm vwarn lf st ->
+    lookup "max_hyp_steps" (vars st) = Some (VInt (Z.of_nat H)) ->
+    runs_to (body_pre s ci cd cs R N H rf hf hl vrl vmult vnorm vwarn
+               (fun i n => nth i (iter_col ci cd cs R H rf hf hl H 0 lf n) 0%Z)) (exec ext01 lp st).
+
+Lemma sm_loop_ok : loop_ok sm_loop.
+Proof. unfold loop_ok. intros. now apply loop_tie. Qed.
+
 Section Tail.
   Variables (s : positive) (ci cd cs : Z) (mult : Q) (R N H : nat) (rf hf : nat -> nat -> Z) (rl hl : nat -> nat) (nm w : bool).
+
+  Theorem tail_run_gen : forall lp, loop_ok lp -> forall st, (forall n, (n < N)%nat -> (rl n <= R)%nat) ->
+    known st (stageA s ci cd cs mult R N H rf hf rl hl nm w) ->
+    returns (enc_x (mkTn [N] (map (fin_value s ci cd cs mult R H rf hf rl hl nm) (seq 0 N))))
+            (exec ext01 (SSeq sm_row0 (SSeq (SSeq main_flags (SSeq lp main_rest)) sm_fin)) st).
+  Proof.
+    intros lp Hlp st Hrl K.
+    eapply returns_seq; [apply row0_run; exact K|]. intros st1 K1.
+    eapply returns_seq; [apply main_run_gen; [intros; now apply Hlp|exact Hrl|exact K1]|]. intros st2 K2.
+    eapply fin_run. exact K2.
+  Qed.
 
   Theorem tail_run : forall st, (forall n, (n < N)%nat -> (rl n <= R)%nat) ->
     known st (stageA s ci cd cs mult R N H rf hf rl hl nm w) ->
     returns (enc_x (mkTn [N] (map (fin_value s ci cd cs mult R H rf hf rl hl nm) (seq 0 N))))
             (exec ext01 (SSeq sm_row0 (SSeq sm_main sm_fin)) st).
-  Proof.
-    intros st Hrl K.
-    eapply returns_seq; [apply row0_run; exact K|]. intros st1 K1.
-    eapply returns_seq; [apply main_run; [exact Hrl|exact K1]|]. intros st2 K2.
-    eapply fin_run. exact K2.
-  Qed.
+  Proof. rewrite sm_main_eq. apply tail_run_gen. exact sm_loop_ok. Qed.
 End Tail.
 
 (* ---- the value of a model result as the float the source computes ------------------------------------------ *)
